@@ -175,6 +175,7 @@ def link_expr(src):
     m = re.match(r"^\|(\w+)\|(.*)$", t)
     if not m: return "(LUnknown %s)" % coq_str(src.strip()[:60])
     v, body = m.group(1), m.group(2)
+    body = re.sub(r"\.(%s)\(\)" % "|".join(FIELDS), r".\1", body)      # read-only accessors name the same fields
     m1 = re.match(r"^%s\.(\w+)$" % v, body)
     if m1 and m1.group(1) in FIELDS: return "(LField %s)" % FIELDS[m1.group(1)]
     m2 = re.match(r"^%s\.(\w+)\.or\(%s\.(\w+)\)$" % (v, v), body)
